@@ -169,6 +169,17 @@ impl<'cx> TyGenContext<'_, 'cx> {
     }
 
     fn gen_enum(&mut self, ty: &'cx hir::EnumDef, id: TypeId, type_name: &str) -> String {
+        // Enums cross the boundary as `ffi.Int32`: with a discriminant outside the i32 range the C type
+        // is `unsigned int` (or wider), which the declarations generated below cannot express.
+        for v in ty.variants.iter() {
+            if i32::try_from(v.discriminant).is_err() {
+                self.errors.push_error(format!(
+                    "Dart backend: discriminant {} of {type_name}::{} does not fit ffi.Int32",
+                    v.discriminant,
+                    v.name.as_str()
+                ));
+            }
+        }
         let methods = ty
             .methods
             .iter()
